@@ -3,6 +3,7 @@ package sym
 import (
 	"fmt"
 	"math/big"
+	"os"
 	"strings"
 
 	"golang.org/x/tools/go/ssa"
@@ -62,6 +63,16 @@ func registerVrt(w *World) {
 	}
 	w.Stubs[p+"vrtChoose"] = func(in *Interp, fn *ssa.Function, args []Value) Value {
 		name := cstr(in, args[0])
+		if fix := os.Getenv("VERIF_FIX"); fix != "" {
+			for _, kv := range strings.Split(fix, ",") {
+				if p := strings.SplitN(kv, ":", 2); len(p) == 2 && p[0] == name {
+					var v int
+					fmt.Sscan(p[1], &v)
+					in.Draws = append(in.Draws, &Draw{Kind: "choose", Name: name, N: v})
+					return IntC(int64(v))
+				}
+			}
+		}
 		k := in.choose("vrt:"+name, cint(in, args[1]))
 		in.Draws = append(in.Draws, &Draw{Kind: "choose", Name: name, N: k})
 		return IntC(int64(k))
@@ -105,6 +116,10 @@ func registerVrt(w *World) {
 			in.spec.FloatCls = 1 << FFinite
 			in.spec.DecCls = 1 << DFinite
 		}
+		return nil
+	}
+	w.Stubs[p+"vrtNested"] = func(in *Interp, fn *ssa.Function, args []Value) Value {
+		in.spec.ANested = cint(in, args[0])
 		return nil
 	}
 	w.Stubs[p+"vrtNumRange"] = func(in *Interp, fn *ssa.Function, args []Value) Value {
